@@ -186,8 +186,12 @@ def bb_scenarios(rng, tier):
     def scen(name, kind, cfgs, steps):
         sc.append({"name": name, "_kind": kind, "configs": [c["text"] for c in cfgs], "_cfgs": cfgs, "steps": steps})
 
-    def cfg(tol="5m", hooks="hmac", secrets=("raw:k1",)):
-        return {"text": bb_cfg(tol, hooks, secrets), "tol": DUR[tol], "hooks": hooks, "secrets": [s[4:].encode() for s in secrets]}
+    def cfg(tol="5m", hooks="hmac", secrets=("raw:k1",), unloadable=False):
+        text = bb_cfg(tol, hooks, secrets)
+        if unloadable:
+            # a LATER route whose secret cannot be loaded: reloading this file is refused as a whole
+            text += G.route_block("/zlate", G.hmac_block(secrets=["env:VERIF_C09_UNSET_SECRET"], tolerance="5m"))
+        return {"text": text, "tol": DUR[tol], "hooks": hooks, "secrets": [s[4:].encode() for s in secrets], "unloadable": unloadable}
 
     def req(now, r, **kw):
         d = {"op": "req", "now": now, "wire": r["wire"], "_r": r}
@@ -237,6 +241,16 @@ def bb_scenarios(rng, tier):
          [{"op": "load", "cfg": 0}, req(t, R), {"op": "load", "cfg": 1}, req(t + 2, R), {"op": "load", "cfg": 0}, req(t + 3, R)])
     scen("reload-readd-tolerance-shrunk", "replay-after-readd", [cfg("5m"), cfg(hooks="none"), cfg("2s")],
          [{"op": "load", "cfg": 0}, req(t, R), {"op": "load", "cfg": 1}, {"op": "load", "cfg": 2}, req(t + 2 * SEC, R)])
+    # 2b. a REFUSED reload (a later route's secret cannot be loaded) that would have raised this route's tolerance: the running
+    #     authenticator - its window and what it remembers - is exactly what it was; a nonce legitimately re-used after the old
+    #     window is accepted as before, a replay inside the old window is refused as before
+    for k, (old_tol, new_tol) in enumerate((("1s", "5m"), ("2s", "10m"), ("5m", "10m"))):
+        Rr = bb_request(ts, "refused-%d" % k)
+        late = DUR[old_tol] + SEC
+        Rr2 = bb_request(ts + late // SEC, "refused-%d" % k)          # the same nonce under a fresh timestamp, after the old window
+        scen("reload-refused-tolerance-grown-%d" % k, "refused-reload", [cfg(old_tol), cfg(new_tol, unloadable=True)],
+             [{"op": "load", "cfg": 0}, req(t, Rr), req(t + 1, Rr), {"op": "load", "cfg": 1, "expect_fail": True}, {"op": "load", "cfg": 1, "expect_fail": True},
+              req(t + DUR[old_tol], Rr), req(t + late, Rr2), req(t + late + 1, Rr2)])
     # random reload placements
     n_rand = 6 if tier == "quick" else 80
     for k in range(n_rand):
@@ -280,6 +294,9 @@ def bb_coq(scen):
     evs, plan = [], []
     cur = None
     for st in scen["steps"]:
+        if st["op"] == "load" and st.get("expect_fail"):
+            plan.append(("loadfail", None, cur))          # refused: nothing changes, the model sees no event
+            continue
         if st["op"] == "load":
             cur = scen["_cfgs"][st["cfg"]]
             mc = bb_model_cfg(cur)
@@ -436,6 +453,11 @@ def main(ctx, replay):
         problems = []
         for si, (st, io, (pk, idx, cur)) in enumerate(zip(s["steps"], im["steps"], plan)):
             evaluations += 1
+            if pk == "loadfail":
+                dist["bb_refused_reloads"] = dist.get("bb_refused_reloads", 0) + 1
+                if io["load_ok"]:
+                    problems.append("step %d: a reload whose secrets cannot be loaded was accepted" % si)
+                continue
             if pk == "load":
                 dist["bb_reloads"] += 1
                 if not io["load_ok"]:
